@@ -54,8 +54,12 @@ def gen_schedule(rng, i, tier):
         files[csvp] = 'Pattern,Merchant,Category,Subcategory\nOLDCSV,Old Csv,Misc,Old\n'
     if b['rules_kind'] == 'none' and rng.random() < 0.3:
         files[csvp] = rng.choice(['Pattern,Merchant,Category,Subcategory\n', '# no rules yet\nPattern,Merchant,Category,Subcategory\n'])
-    if b['rules_kind'] == 'csv' and rng.random() < 0.15:
+    if b['rules_kind'] == 'csv' and rng.random() < 0.2:
         files[base + 'config/merchant_categories.csv.bak'] = 'Pattern,Merchant,Category,Subcategory\nOLDBAK,Old,Misc,Old\n'
+        if rng.random() < 0.5 and len(files.get(csvp, '')) > 45:
+            # an older backup of exactly the same size (and, on the simulated disk, the same time stamp) but other content
+            t = files[csvp]
+            files[base + 'config/merchant_categories.csv.bak'] = t[:40] + ('X' if t[40] != 'X' else 'Y') + t[41:]
     if b['rules_kind'] == 'csv' and rng.random() < 0.25:
         # legal CSV rows that convert to something the .rules loader may not accept (quotes in the pattern, empty category,
         # empty merchant, a bracket that is no modifier, a trailing backslash): the migration then fails half-way or yields
